@@ -207,7 +207,7 @@ CHECKS['C12'] = {
     'level': 'proof',
     'explanation': 'code == sem_run is proved against the extracted text with loop invariants in forward style; lemma_every_line_of_every_file, lemma_interrupted_run_consumes_nothing and lemma_limit_reached_consumes_nothing are pure spec-level inductions.',
     'trusted': COMMON_TRUST + ['std::io::BufRead::lines line splitting'],
-    'unproved': ['main.rs collection of input files'],
+    'unproved': ['main.rs collection of input files (no contract; the bounded grid runs the command-line binary over files given in unsorted order and twice)'],
 }
 CHECKS['C19'] = {
     'grid': {'sets': ['c19'], 'bound': 'every sequence of up to 3 lines (a quarter of those of 4) over a 5-line pool, also cut into two files, x 5 plain statements x interrupt at every printed record; 14 statements interrupted before the start; unreadable line after the interrupt; joined-file loading after an interrupt with rows / foreign lines in 5 layouts of 60 lines (about 1540 cases)'},
